@@ -381,6 +381,10 @@ def expected_rt(case, trackmap, merged):
     def opts(t):
         return M.tick_options(t, ppq, mpq)
 
+    def raw_tr(tr):
+        # Performance() renumbers the tracks of notes, controls and programs only
+        return 0 if merged else _etr(tr)
+
     exp = dict(notes=[], controls=[], programs=[], keysigs=[], timesigs=[], metas=[])
     groups = []
     for pi, p in enumerate(case["parts"]):
@@ -397,11 +401,11 @@ def expected_rt(case, trackmap, merged):
         for t, prog, ch, tr in p.get("programs", []):
             exp["programs"].append(dict(prog=prog, ch=_ech(ch), track=tr_of(pi, tr), t=opts(t)))
         for t, fifths, mode, tr in p.get("keysigs", []):
-            exp["keysigs"].append(dict(fifths=fifths, mode=mode or "major", track=tr_of(pi, tr), t=opts(t)))
+            exp["keysigs"].append(dict(fifths=fifths, mode=mode or "major", track=raw_tr(tr), t=opts(t)))
         for t, b, bt, tr in p.get("timesigs", []):
-            exp["timesigs"].append(dict(beats=b, beat_type=bt, track=tr_of(pi, tr), t=opts(t)))
+            exp["timesigs"].append(dict(beats=b, beat_type=bt, track=raw_tr(tr), t=opts(t)))
         for t, typ, attrs, tr in p.get("metas", []):
-            exp["metas"].append(dict(type=typ, attrs=dict(attrs), track=tr_of(pi, tr), t=opts(t)))
+            exp["metas"].append(dict(type=typ, attrs=dict(attrs), track=raw_tr(tr), t=opts(t)))
         if not p.get("programs") and pairs:
             groups.append([dict(prog=0, ch=c, track=r, t=(), tmax=min(first)) for c, r in sorted(set(pairs))])
     return exp, groups
@@ -647,11 +651,13 @@ def _tick_interval(t, cfg):
 def valid_rt(case):
     """Quantifier: inside one written/read track no two notes of equal pitch and channel overlap;
     contiguous track numbers for list / part input; notes of equal pitch and channel that only meet
-    through merging are at least one tick apart."""
+    through merging are at least one tick apart; signatures/meta events sit on a track that also
+    carries notes, controls or programs."""
     cfg = case["cfg"]
     merged = case["msave"] or case["mload"]
     notes = []
     used = set()
+    meta_tracks = set()
     for pi, p in enumerate(case["parts"]):
         ptag = pi if case["inp"] == "perf" else 0
         for pitch, on, off, vel, ch, tr in p.get("notes", []):
@@ -663,14 +669,18 @@ def valid_rt(case):
             used.add((ptag, _etr(r[3])))
         for key in ("keysigs", "timesigs", "metas"):
             for r in p.get(key, []):
-                if (ptag, _etr(r[3])) not in used:
-                    return False
+                meta_tracks.add(_etr(r[3]))
     if not used:
         return False
     if case["inp"] != "perf":
-        trs = sorted(t for _, t in used)
+        trs = sorted(set(t for _, t in used))
         if trs != list(range(len(trs))):
             return False
+        ntracks = len(trs)
+    else:
+        ntracks = len(used)  # Performance() renumbers notes/controls/programs to 0..k-1 (not the meta events)
+    if any(t >= ntracks for t in meta_tracks):
+        return False
     for i in range(len(notes)):
         for j in range(i + 1, len(notes)):
             a, b = notes[i], notes[j]
@@ -721,11 +731,11 @@ def gen_one_note(configs, inputs, merges, stride=1):
                         if i % 2 == 0:
                             part["programs"] = [[T[(i * 3) % len(T)], (i * 13) % 128, ch, tr]]
                         if i % 4 == 0:
-                            part["keysigs"] = [[T[(i * 5) % len(T)], [0, -3, 2, 7, -7][(i // 4) % 5], [None, "minor", "major"][(i // 4) % 3], tr]]
+                            part["keysigs"] = [[T[(i * 5) % len(T)], [0, -3, 2, 7, -7][(i // 4) % 5], [None, "minor", "major"][(i // 4) % 3], 0]]
                         if i % 4 == 1:
-                            part["timesigs"] = [[T[(i * 2) % len(T)], [3, 4, 6, 12][(i // 4) % 4], [8, 4, 2, 16][(i // 4) % 4], tr]]
+                            part["timesigs"] = [[T[(i * 2) % len(T)], [3, 4, 6, 12][(i // 4) % 4], [8, 4, 2, 16][(i // 4) % 4], 0]]
                         if i % 4 == 2:
-                            part["metas"] = [[T[(i * 9) % len(T)], "text", {"text": "t%d" % (i % 7)}, tr]]
+                            part["metas"] = [[T[(i * 9) % len(T)], "text", {"text": "t%d" % (i % 7)}, 0]]
                         io = IOS[i % 3]
                         loader = "lp" if (i % 5 == 0 and io != "object") else "lpm"
                         defaults = cfg == (480, 500000) and i % 3 == 1
@@ -1048,39 +1058,20 @@ def gen_raw_pairing():
                                             continue
                                         if same_key and split and merge and pname != "disjoint":
                                             continue
+                                        if bfirst and (split or same_key):
+                                            continue
                                         i += 1
                                         A = [[a0, "on", ka[0], ka[1], 64], [a1, offa, ka[0], ka[1]]]
                                         B = [[b0, "on", kb[0], kb[1], 65], [b1, offb, kb[0], kb[1]]]
                                         if split:
                                             tracks = [A, B]
                                         else:
-                                            evs = []
-                                            for ev in (B + A if bfirst else A + B):
-                                                evs.append(ev)
-                                            # stable by tick; for equal keys a note ends before the next starts
-                                            order = {id(ev): n for n, ev in enumerate(evs)}
-                                            if same_key:
-                                                evs.sort(key=lambda ev: (ev[0], 0 if (ev is A[1]) else 1, order[id(ev)]))
-                                            else:
-                                                # each note's own on precedes its own off
-                                                evs.sort(key=lambda ev: (ev[0], order[id(ev)] if not bfirst else -order[id(ev)]))
-                                                evs = _fix_own_order(evs, A, B)
-                                            tracks = [evs]
+                                            # stable by tick: file order inside a tick follows the list order
+                                            tracks = [sorted(B + A if bfirst else A + B, key=lambda ev: ev[0])]
                                         if tempo:
                                             tracks = _insert_tempo(tracks, [(len(tracks) - 1, 150, 250000)], after=0)
                                         yield dict(kind="raw", ppq=[480, 96][i % 2], tracks=tracks, merge=merge, bpm=120,
                                                    io=["object", "path"][i % 2], loader="lpm", pattern=pname)
-
-
-def _fix_own_order(evs, A, B):
-    """make sure that for a zero-length note the note-on precedes its note-off"""
-    out = list(evs)
-    for note in (A, B):
-        ia = [k for k, e in enumerate(out) if e is note[0]][0]
-        ib = [k for k, e in enumerate(out) if e is note[1]][0]
-        if ia > ib:
-            out[ia], out[ib] = out[ib], out[ia]
-    return out
 
 
 def gen_raw_keys():
